@@ -15,6 +15,7 @@ Case shapes (all JSON-native; byte strings are latin-1 `str`):
 """
 import os
 import re
+import random
 import binascii
 import itertools
 import unicodedata
@@ -400,27 +401,36 @@ def check_case(case):
 # --------------------------------------------------------------------------------------------
 # exhaustive units
 
+LEAD_PARTS = 4
+
+
 def work_items():
+    """(codepage, what, part): enumerated without parsing any table."""
     items = []
     for name in all_codepages():
-        F = facts(name)
-        items.append((name, 'single', None))
-        items.append((name, 'rep', None))
-        for lead in F.lead:
-            items.append((name, 'lead', lead))
+        items.append((name, 'single', 0))
+        items.append((name, 'rep', 0))
+        if is_dbcs(name):
+            for part in range(LEAD_PARTS):
+                items.append((name, 'lead', part))
+    # heavy items first, dealt round-robin
+    items.sort(key=lambda it: (it[1] != 'lead', not is_dbcs(it[0]), it[0], it[2]))
     return items
 
 
 def run_tables(shard, nshards, tier, seed, ev):
     items = work_items()[shard::nshards]
-    for name, what, lead in items:
+    for name, what, part in items:
         F = facts(name)
-        for box in ((True, False) if F.dbcs else (True,)):
+        # the repertoire direction does not go through box protection differently: once is enough
+        boxes = (True, False) if (F.dbcs and what != 'rep') else (True,)
+        for box in boxes:
             cp = cp_obj(name, box)
             if what == 'single':
                 keys = [bytes([c]) for c in range(256)]
             elif what == 'lead':
-                keys = [lead + bytes([t]) for t in range(256) if bytes([t]) in F.trailset]
+                keys = [lead + bytes([t]) for lead in F.lead[part::LEAD_PARTS]
+                        for t in range(256) if bytes([t]) in F.trailset]
             else:
                 keys = None
             if keys is not None:
@@ -435,7 +445,7 @@ def run_tables(shard, nshards, tier, seed, ev):
                 ev.labels['table:defined-duplicate'] += sum(
                     1 for b in keys if b in F.table and not F.unique(b))
                 ev.labels['table:undefined-pair'] += sum(1 for b in keys if b not in F.table)
-                if what == 'lead' and lead == F.lead[0] and box:
+                if what == 'lead' and part == 0 and box and keys:
                     ev.sample({'u': 'byte', 'cp': name, 'b': l1(keys[0]), 'box': box})
             else:
                 n = k = 0
@@ -553,24 +563,26 @@ def build_stream(cpsel, toks, cuts, pressel, presidx, box, subst):
             'box': box, 'preserve': l1(pres), 'subst': subst}
 
 
+def gen_stream(rng):
+    toks = [(rng.randrange(8), rng.randrange(256), rng.randrange(256), rng.randint(1, 5))
+            for _ in range(rng.choice([0, 1, 2, 3, 5, 8, 12, 24]))]
+    cuts = [rng.randrange(65) for _ in range(rng.randrange(9))]
+    return build_stream((rng.random() < 0.75, rng.randrange(48)), toks, cuts, rng.randrange(4),
+                        [rng.randrange(256) for _ in range(rng.randrange(5))], rng.random() < 0.5,
+                        rng.random() < 0.5)
+
+
 def strat_stream():
-    byte = st.integers(0, 255)
-    tok = st.tuples(st.integers(0, 7), byte, byte, st.integers(1, 5))
-    return st.builds(
-        build_stream,
-        st.tuples(st.integers(0, 3).map(lambda x: x > 0), st.integers(0, 47)),
-        st.lists(tok, max_size=24),
-        st.lists(st.integers(0, 64), max_size=8),
-        st.integers(0, 3), st.lists(byte, max_size=4),
-        st.booleans(), st.booleans())
+    """8 uniformly random bytes seed a PRNG that draws the token list (cheap, unbiased pools)."""
+    return st.binary(min_size=8, max_size=8).map(lambda b: gen_stream(random.Random(b)))
 
 
 def units(tier):
     return [
-        Unit('parse', 'enum', shards=4, gen=gen_parse, exhaustive=True),
+        Unit('parse', 'enum', shards=2, gen=gen_parse, exhaustive=True),
         Unit('tables', 'bulk', shards=16, run=run_tables, exhaustive=True),
         Unit('small-streams', 'bulk', shards=16, run=run_small, exhaustive=True),
-        Unit('streams', 'hyp', shards=16, examples={'quick': 1000, 'thorough': 125000},
+        Unit('streams', 'hyp', shards={'quick': 8, 'thorough': 16}, examples={'quick': 1500, 'thorough': 125000},
              strategy=strat_stream),
     ]
 
